@@ -12,6 +12,7 @@ import Frrs.Props.C15
 import Frrs.Props.C02
 import Frrs.Props.C04
 import Frrs.Props.C03
+import Frrs.Proofs.ShortHash
 namespace Frrs.C08
 open Frrs
 set_option linter.unusedSimpArgs false
@@ -43,6 +44,28 @@ theorem neutral_identity (l : Bytes) : rewriteIdentityLine {} l = l := by
   split
   · rfl
   · cases startsWith l kwAuthor <;> cases startsWith l kwCommitter <;> simp [C04.timestamp_noop]
+
+/-- **a second run in the same repository**: the commit-map the first run left behind turns on the old-id translator
+    (message.rs `ShortHashMapper`). If that map sends every id to itself — what a run that changed nothing records — the
+    translator gives every message back byte for byte: ids cited in upper or mixed case, abbreviations, ambiguous
+    abbreviations and hex words that are no ids all stay as written. (The defect repaired as R5 was exactly a failure of
+    this statement: an upper-case cited id came back in lower case and the commit got a new hash.) -/
+theorem neutral_message_after_neutral_run (m : ShMap) (h : SelfMapped m) (msg : Bytes) :
+    rewriteMessage { shortHash := some m.rewrite } msg = msg := by
+  show m.rewrite msg = msg
+  exact rewrite_selfMapped m h msg
+
+/-- the hypothesis is what reading such a map produces: a file whose every line is `<id> <id>` (any case) is self-mapped,
+    and stays so when the run records further ids mapped to themselves -/
+theorem selfMapped_is_reachable (m : ShMap) (h : SelfMapped m) (old new : Bytes) (he : lowerAll new = lowerAll old) :
+    SelfMapped (m.update old new) := selfMapped_update m h old new he
+
+example : (ShMap.ofFile b!"ABCDEF0123 abcdef0123\n").isSome = true := by decide
+example : ((ShMap.ofFile b!"abcdef0123456 abcdef0123456\n").map fun m => m.rewrite b!"see ABCDEF0, abcdef01234567") =
+    some b!"see ABCDEF0, abcdef01234567" := by decide +kernel
+/-- and a map that does send the id elsewhere rewrites the citation, keeping its length (not vacuous) -/
+example : ((ShMap.ofFile b!"abcdef0123456 1111111111111\n").map fun m => m.rewrite b!"see ABCDEF0, abcdef01234567") =
+    some b!"see 1111111, abcdef01234567" := by decide +kernel
 
 /-- ref names are unchanged -/
 theorem neutral_ref (r : Bytes) : renameRef {} r = none := C03.no_rename r
